@@ -181,12 +181,15 @@ static void List_Assign(var self, var obj) {
   
   var type = implements_method(obj, Iter, iter_type) ? iter_type(obj) : Ref;
   
+  /* a source without a length or indexing is refused first */
+  size_t nargs = len(obj);
+  method_at_offset(obj, Get, offsetof(struct Get, get), "get");
+  
   List_Clear(self);
   
   l->type = type;
   l->tsize = size(l->type);
   
-  size_t nargs = len(obj);
   for (size_t i = 0; i < nargs; i++) {
     List_Push(self, get(obj, $I(i)));
   }
